@@ -85,6 +85,17 @@ def can_deliver(cap, request, stay, V, period):
     return e >= request * (1 + 1e-6) + 1e-6
 
 
+def fit_delivery_check(ev, request, stay, V, period, pmax, kind, rep, ctx):
+    """the provided two-stage fit, reached through a converter: charging at full rate for the session's own
+    stay delivers exactly the request (only decidable when the battery's max power is the fit's 32 A x V)"""
+    if stay < 1 or abs(pmax - 32 * V / 1000.0) > 1e-12:
+        return
+    bt = ev._battery
+    got, _ = ode_energy(float(bt._capacity), float(bt._current_charge), pmax, 0.8, 32, V, stay * period)
+    if abs(got - request) > 1e-5:
+        rep("%s:fit-not-exact-for-the-stay" % kind, "fitted battery (%r kWh, initial %r) charged at full rate for the session's %d periods takes %r kWh, request %r" % (bt._capacity, bt._current_charge, stay, got, request), got, request, ctx)
+
+
 def battery_checks(ev, request, kind, rep, ctx):
     b = ev._battery
     free = b._capacity - b._current_charge
@@ -166,6 +177,8 @@ def check_doc_ev(ev, d, start, period, V, pmax, max_len, bpk, ff, rep, ctx, stat
     if ev.session_id != d["sessionID"] or ev.station_id != d["spaceID"]:
         rep("doc:ids", "ids (%r, %r)" % (ev.session_id, ev.station_id), None, None, ctx)
     battery_checks(ev, ev.requested_energy, "doc", rep, ctx)
+    if bpk == "l2-fit":
+        fit_delivery_check(ev, want, dep - a, V, period, pmax, "doc", rep, ctx)
     if ev.maximum_charging_power != pmax:
         rep("doc:max-power", "battery max power %r, expected %r" % (ev.maximum_charging_power, pmax), ev.maximum_charging_power, pmax, ctx)
     if capped or bound:
@@ -390,6 +403,8 @@ def run_sample(item, only=None):
             if abs(ev.requested_energy - req) > 1e-9 * max(1.0, req):
                 rep("sample:requested-energy%s" % (":force_feasible" if ff else ""), "requested energy %r, expected %r" % (ev.requested_energy, req), ev.requested_energy, req, ctx)
             battery_checks(ev, ev.requested_energy, "sample", rep, ctx)
+            if bpk == "l2-fit":
+                fit_delivery_check(ev, req, exp_d - exp_a, V, period, pmax, "sample", rep, ctx)
             if bpk == "l2-fit" and exp_d - exp_a >= 1:
                 # the fitted battery must be able to take the request within the session's own stay
                 bt = ev._battery
